@@ -88,7 +88,12 @@ static bool build_g3(GRun& g, const GSpec& s, const std::vector<Real>& err_by_ve
     const Vec<>& x = g.model->adj->x(); for (int i = 1; i <= g.cols; i++) g.x.push_back(x(i));
     const Vec<>& res = g.model->adj->r(); for (int i = 1; i <= g.rows; i++) g.r.push_back(res(i));
     g.rtr = g.model->adj->rtr(); g.defect = g.model->adj->defect(); g.redundancy = g.model->redundancy;
-    for (auto it = g.model->points->begin(); it != g.model->points->end(); ++it) { g3::Point* p = *it; g.xyz[p->name] = {p->X(), p->Y(), p->Z()}; }
+    for (auto it = g.model->points->begin(); it != g.model->points->end(); ++it) { g3::Point* p = *it;
+      // the first statements of Point::write_xml: the adjusted n,e,u become corrections of X,Y,Z (the rest of write_xml converts to
+      // ellipsoidal coordinates by iteration and is outside the claim)
+      Real n = p->N(), e = p->E(), u = p->U();
+      p->X_.set_correction(p->x_transform(n, e, u)); p->Y_.set_correction(p->y_transform(n, e, u)); p->Z_.set_correction(p->z_transform(n, e, u));
+      g.xyz[p->name] = {p->X(), p->Y(), p->Z()}; }
     g.ok = true;
   } catch (const Exception::matvec& ex) { g.why = std::string("matvec: ") + ex.what(); }
     catch (const Exception::string& ex) { g.why = ex.str; }
